@@ -51,6 +51,7 @@ type c14out struct {
 	inflight int32
 	overlap  int32
 	delay    time.Duration
+	stallFirst time.Duration
 	mu       sync.Mutex
 	writes   [][]byte
 }
@@ -60,6 +61,14 @@ func (o *c14out) Write(p []byte) (int, error) {
 		atomic.StoreInt32(&o.overlap, 1)
 	}
 	cp := append([]byte(nil), p...)
+	if o.stallFirst > 0 {
+		o.mu.Lock()
+		first := len(o.writes) == 0
+		o.mu.Unlock()
+		if first {
+			time.Sleep(o.stallFirst)
+		}
+	}
 	if o.delay > 0 {
 		time.Sleep(o.delay)
 	}
@@ -789,6 +798,59 @@ func c14runSeq(run *vlab.Run, c c14seqCase) {
 		// MAC carries the production index: the printed line identifies which sighting was printed
 		return &arp.ScanResult{IP: fmt.Sprintf("10.%d.%d.%d", ids[i]>>16&255, ids[i]>>8&255, ids[i]&255), MAC: fmt.Sprintf("seq-%d", i), Vendor: "v\"\n"}
 	}
+	if c.Kind == "enginechan" {
+		// the engines' own result channel (two chained buffers) between one producer - the receiver - and the logger,
+		// with an output that stalls at its first line while thousands of results pile up behind it
+		ctx, cancel := context.WithCancel(context.Background())
+		defer cancel()
+		out.stallFirst = 250 * time.Millisecond
+		rc := scan.NewResultChan(ctx, 1000)
+		l := c14logger(out, false)
+		done := make(chan struct{})
+		go func() { defer close(done); l.LogResults(ctx, rc.Chan()) }()
+		_, finished, parked := run.Watch(120*time.Second, "v-byte-cpu/sx/", func() {
+			for i := 0; i < c.N; i++ {
+				rc.Put(mk(i))
+			}
+			for w := 0; w < 6000; w++ { // everything that was put is printed in the end
+				out.mu.Lock()
+				n := len(out.writes)
+				out.mu.Unlock()
+				if n >= c.N {
+					break
+				}
+				time.Sleep(5 * time.Millisecond)
+			}
+			cancel()
+			<-done
+		})
+		run.Eval(c.N)
+		if !finished {
+			if parked {
+				run.Violation("logger-stuck", fmt.Sprintf("producer/logger did not finish: %+v", c), c)
+			} else {
+				run.Inconclusive(fmt.Sprintf("engine-channel run still going: %+v", c))
+			}
+			return
+		}
+		out.mu.Lock()
+		writes := out.writes
+		out.mu.Unlock()
+		if len(writes) != c.N {
+			run.Violation("seq:count", fmt.Sprintf("%d results were put into the engine's result channel, %d lines were printed within 30 s: %+v", c.N, len(writes), c), c)
+			return
+		}
+		for i, w := range writes {
+			_, sq, ok := c14idOf(w)
+			if !ok || sq != i {
+				run.Violation("seq:order", fmt.Sprintf("line %d is result #%d: a stalled output made results overtake each other in the engine's result channel: %+v", i, sq, c), c)
+				return
+			}
+		}
+		run.Count("engine_channel_runs", 1)
+		run.Count("sequence_lines", int64(len(writes)))
+		return
+	}
 	ctx := context.Background()
 	ch := make(chan scan.Result, c.ChanCap)
 	l := c14logger(out, c.Kind == "dedup")
@@ -928,6 +990,9 @@ func TestVerifC14Sequences(t *testing.T) {
 					cases = append(cases, c14seqCase{Kind: "producers", N: n, Pattern: "unique", ChanCap: []int{0, 1000}[r%2], Producers: p, Seed: rng.Int63()})
 				}
 			}
+		}
+		if r < 3 {
+			cases = append(cases, c14seqCase{Kind: "enginechan", N: []int{6000, 2500, 12000}[r], Pattern: "unique", Seed: rng.Int63()})
 		}
 		if r == 0 {
 			// 300 000 distinct hosts: a "seen" set that is keyed by anything shorter than the id (a 32-bit hash...)
